@@ -69,7 +69,47 @@ func ifaceMethodKey(t types.Type, method string) string {
 }
 
 // call translates a call instruction (also used for defers). resT may be nil for no value.
+// call translates a call and maintains two activation-local ghosts that "rejection is justified" clauses use:
+// `calleefailed` (some call made so far returned a non-nil error, error constructors excepted) and `lastminted` (the
+// value the most recent error constructor - fmt.Errorf, errors.New - returned). Both are per top-level activation; calls
+// inside inlined helpers count (the helper's text is part of the function being verified).
 func (tr *Trans) call(c *ssa.CallCommon, in ssa.Instruction, resT types.Type) Val {
+	r := tr.callInner(c, in, resT)
+	res := c.Signature().Results()
+	if res.Len() == 0 || len(r.C) == 0 {
+		return r
+	}
+	last := res.At(res.Len() - 1).Type()
+	if !isErrorType(last) {
+		return r
+	}
+	off := 0
+	for i := 0; i < res.Len()-1; i++ {
+		off += ncomps(res.At(i).Type())
+	}
+	if off >= len(r.C) || r.C[off].Sort != SInt {
+		return r
+	}
+	ev := r.C[off]
+	name := ""
+	if sc := c.StaticCallee(); sc != nil {
+		name = sc.String()
+	}
+	if name == "fmt.Errorf" || name == "errors.New" {
+		tr.st.set("L$lastminted", ev)
+		return r
+	}
+	cf := tr.st.get(tr.e, "D$calleefailed", SBool)
+	tr.st.set("D$calleefailed", or(cf, not(eq(ev, intT(0)))))
+	return r
+}
+
+func isErrorType(t types.Type) bool {
+	n, ok := t.(*types.Named)
+	return ok && n.Obj().Pkg() == nil && n.Obj().Name() == "error"
+}
+
+func (tr *Trans) callInner(c *ssa.CallCommon, in ssa.Instruction, resT types.Type) Val {
 	if resT == nil {
 		resT = c.Signature().Results()
 	}
@@ -620,6 +660,9 @@ func (tr *Trans) applyContract(ct *Contract, fn *ssa.Function, sig *types.Signat
 		tr.e.assume(tr.rc, not(eq(res.C[0], intT(0))))
 	}
 	for _, en := range ct.Ensures {
+		if mentionsActivationGhost(en.AST) {
+			continue // `calleefailed` / `lastminted` speak about the callee's own activation: proved there, meaningless here
+		}
 		if fn != nil && mentionsLocalsOf(fn, ct, names, en.AST) && env.hasUnresolvable(en.AST) {
 			continue // a postcondition phrased over the callee's own locals: proved there, not usable by callers
 		}
@@ -711,12 +754,43 @@ func (tr *Trans) callerAsserts(when, callee string, ord int, args []Val, res Val
 		}
 		tr.lastRes[shortLast(callee)] = res
 	}
+	if !tr.top && tr.g.dry == 0 {
+		// a call inside an inlined helper: the enclosing function's `deepcall` asserts apply here too (the helper's text is
+		// part of the function under verification), evaluated over the enclosing function's locals at the helper call
+		if top := tr.g.topTr; top != nil && top != tr && top.contract != nil {
+			for _, as := range top.contract.Asserts {
+				if !as.Deep || as.When != when || !strings.HasSuffix(callee, as.Callee) {
+					continue
+				}
+				env := top.topEnv(post)
+				for i, a := range args {
+					env.vars[fmt.Sprintf("arg%d", i)] = a
+				}
+				if len(res.C) > 0 {
+					env.vars["callres"] = res
+				}
+				for k, v := range top.lastRes {
+					env.vars["lastres_"+k] = v
+				}
+				saved := top.st
+				top.st = post
+				t, extra := top.goalClause(env, as.Clause.AST)
+				top.st = saved
+				helper := "helper"
+				if tr.fn != nil {
+					helper = tr.fn.Name()
+				}
+				tr.e.oblige(&Obl{Name: fmt.Sprintf("%s#assert-%s@%s#in:%s#%d:%s", top.label, when, as.Callee, helper, ord, as.Clause.Label), Kind: "assert",
+					Props: as.Clause.Props, Cond: tr.rc, Goal: t, Pos: as.Clause.Where, Fn: top.label, Extra: extra})
+			}
+		}
+	}
 	if tr.contract == nil || !tr.top || tr.g.dry > 0 {
 		return
 	}
 	for _, as := range tr.contract.Asserts {
-		if as.When != when || !strings.HasSuffix(callee, as.Callee) {
-			continue
+		if as.Deep || as.When != when || !strings.HasSuffix(callee, as.Callee) {
+			continue // (a deepcall assert is about calls inside inlined helpers only)
 		}
 		if as.Ordinal != 0 && as.Ordinal != ord {
 			continue
@@ -886,6 +960,18 @@ func (tr *Trans) nameAt(name string) (ssa.Value, bool) {
 
 // mentionsLocalsOf reports whether a clause of fn's contract names a local variable of fn (other than its parameters
 // and results).
+// mentionsActivationGhost: the clause names one of the activation-local ghosts of the function it belongs to.
+func mentionsActivationGhost(e ast.Expr) bool {
+	found := false
+	ast.Inspect(e, func(n ast.Node) bool {
+		if id, ok := n.(*ast.Ident); ok && (id.Name == "calleefailed" || id.Name == "lastminted") {
+			found = true
+		}
+		return !found
+	})
+	return found
+}
+
 func mentionsLocalsOf(fn *ssa.Function, ct *Contract, paramNames []string, e ast.Expr) bool {
 	known := map[string]bool{}
 	for _, n := range paramNames {
